@@ -302,6 +302,41 @@ Theorem C15_exact_once_write_car :
 Proof. exact write_car_spec. Qed.
 Print Assumptions C15_exact_once_write_car.
 
+(* ---- histories in one process: a write into a failing destination, then fault-free writes ------------ *)
+(* the destination of the first SelectiveCar.Write fails at its fk-th Write call (error, or short write);
+   whatever that first write was, the following fault-free Write / Prepare answer exactly what they answer
+   stand-alone: util.LdWrite carries nothing from one call to the next *)
+Theorem C15_legacy_writes_are_independent :
+  forall fk short ds1 k ds2,
+    snd (fst (sc_history fk short ds1 k ds2)) = sc_write_dags k ds2
+    /\ snd (sc_history fk short ds1 k ds2) = sc_prepare_dags ds2.
+Proof. exact sc_history_independent. Qed.
+Print Assumptions C15_legacy_writes_are_independent.
+
+Theorem C15_write_car_after_failed_write_is_independent :
+  forall fk short r1 vs1 ok1 r2 vs2 ok2,
+    snd (wc_history fk short r1 vs1 ok1 r2 vs2 ok2) = write_car r2 vs2 ok2.
+Proof. exact wc_history_independent. Qed.
+Print Assumptions C15_write_car_after_failed_write_is_independent.
+
+(* so after ANY failed first write the second has exactly-once bytes and the announced size *)
+Theorem C15_write_after_failed_write_exact :
+  forall fk short ds1 k ds2,
+    Forall (fun d => t_ok (snd d) = true) ds2 ->
+    let bs := first_occ (concat (map (fun d => blocks_of (t_loads (snd d))) ds2)) in
+    fst (fst (snd (fst (sc_history fk short ds1 k ds2)))) = enc_payload (map fst ds2) bs
+    /\ snd (sc_history fk short ds1 k ds2)
+       = Some (blen (enc_payload (map fst ds2) bs), map fst ds2, map fst bs).
+Proof. exact sc_history_second_exact. Qed.
+Print Assumptions C15_write_after_failed_write_exact.
+
+(* what a failing destination accepted from WriteCar is a prefix of the fault-free output *)
+Theorem C15_failed_write_is_a_prefix :
+  forall fk short roots vs ok,
+    exists rest, fst (write_car roots vs ok) = fst (write_car_faulty fk short roots vs ok) ++ rest.
+Proof. exact write_car_faulty_prefix. Qed.
+Print Assumptions C15_failed_write_is_a_prefix.
+
 (* ---- the output read back by the sequential reader (C02's L4) ----------------------------------------- *)
 Theorem C15_traverse_v1_reads_back :
   forall hok hdrdec o order root ls,
